@@ -49,6 +49,7 @@ pub const TRACKED: &[&str] = &[
     "NetDeclAssignment",
     "VariableDeclAssignment",
     "TypeDeclaration",
+    "TypeAssignment",
     "GenvarIdentifier",
     "NetAssignment",
     "BlockIdentifier",
@@ -113,6 +114,7 @@ pub fn observe<'a, I: IntoIterator<Item = RefNode<'a>>>(it: I, text: &'a str) ->
                 // the declared name is the last TypeIdentifier directly of the declaration; generated typedefs use built-in types only
                 push("TypeDeclaration", sub_ident(&n, text, |x| matches!(x, RefNode::TypeIdentifier(_))))
             }
+            RefNode::TypeAssignment(_) => push("TypeAssignment", sub_ident(&n, text, |x| matches!(x, RefNode::TypeIdentifier(_)))),
             RefNode::GenvarIdentifier(_) => {
                 // only in declarations: handled below via GenvarDeclaration
             }
